@@ -1,5 +1,6 @@
 mod common;
 mod c14;
+mod c16;
 mod c01;
 mod c03;
 mod c09;
@@ -30,6 +31,7 @@ fn main() {
         "version" => println!("{}", pgp::VERSION),
         "c14" => c14::run(&cases, &out, &tier, seed),
         "c10" => c10::run(&cases, &out, &tier, seed),
+        "c16" => c16::run(&cases, &out, &tier, seed),
         "c01" => c01::run(&cases, &out, &tier, seed),
         "c09" => c09::run(&cases, &out, &tier, seed),
         "c03" => c03::run(&cases, &out, &tier, seed),
